@@ -151,11 +151,24 @@ def run_model(cases):
 
 def correspondence(ctx, cases):
     """Returns (impl_outputs, corr_failures)."""
-    impl = [run_impl(c) for c in cases]
+    impl, raised = [], {}
+    for i, c in enumerate(cases):
+        try:
+            impl.append(run_impl(c))
+        except Exception as e:  # noqa: BLE001  the implementation refusing a case the model accepts is a difference
+            impl.append(None)
+            raised[i] = f"{type(e).__name__}: {str(e)[:120]}"
     model = run_model(cases)
     fails = []
     for i, (c, o) in enumerate(zip(cases, impl)):
         m = model.get(i)
+        if o is None:
+            if m is not None:
+                fails.append(Violation("constrain-impl-raised",
+                                       f"_constrain_ages raised {raised[i]} on a case the Lean model accepts "
+                                       f"(iters={c['iters']}, eps={c['eps']}, mode={c.get('mode')})",
+                                       dict(case_replay(c), impl=None, model=[f2h(x) for x in m]), stage="B"))
+            continue
         same = m is not None and m.shape == o.shape and all(f2h(a) == f2h(b) for a, b in zip(m, o))
         if not same:
             nd = None if m is None else int(np.sum([f2h(a) != f2h(b) for a, b in zip(m, o)]))
